@@ -262,6 +262,19 @@ def protected_nesting_cases(api=False, ops=("dec",)):
                         out.append(case("dectag", ty, head(6, MSG_TAG[ty]) + b, fam="protected-nesting-sweep:dectag:" + ty))
     return out
 
+
+def edited_twins(cases):
+    """for every helper call on a DECODED message with a stated expectation: the same call after the parsed view of the
+    protected headers was edited without clearing the retained bytes (harness helpers `edited.*`) must hand over the same
+    bytes - what was received stays authoritative whatever its spelling (zero-length included)"""
+    out = []
+    for c in cases:
+        l = c["line"]
+        if l.startswith("helperhex ") and not l.startswith("helperhex countersig") and not l.startswith("helperhex edited.") and "expect" in c:
+            t = dict(c); t["line"] = "helperhex edited." + l[len("helperhex "):]; t["fam"] = c["fam"] + ":edited"; t["impl_only"] = True
+            out.append(t)
+    return out
+
 # ================================================================= C16
 def label_palette():
     ints = sorted(set(x for x in LATTICE if -2**63 <= x < 2**63) | {2, 10, 22, 25, 100, 1000, -2, -10, -23, -26, -100, -1000,
@@ -363,7 +376,20 @@ def cases_C17(rng, tier):
                  ("key-alg-in-set", "CoseKeySet", lambda x: b"\x81\xa2\x01\x01\x03" + x),
                  ("recipient-alg", "CoseMac", lambda x: b"\x85\x40\xa0\xf6\x40\x81\x83\x40\xa1\x01" + x + b"\xf6"),
                  ("signer-crit", "CoseSign", lambda x: b"\x84\x40\xa0\xf6\x81\x83\x40\xa1\x02\x81" + x + b"\x40"),
-                 ("countersig-ct", "Header", lambda x: b"\xa1\x07\x83\x40\xa1\x03" + x + b"\x40"))
+                 ("countersig-ct", "Header", lambda x: b"\xa1\x07\x83\x40\xa1\x03" + x + b"\x40"),
+                 # the same positions with SIBLING fields decoded before / after them (classification of an entry never
+                 # depends on what else the map holds, or on the order of its entries)
+                 ("crit-after-alg", "Header", lambda x: b"\xa2\x01\x26\x02\x81" + x), ("crit-before-alg", "Header", lambda x: b"\xa2\x02\x81" + x + b"\x01\x26"),
+                 ("crit-after-text-alg", "Header", lambda x: b"\xa2\x01\x61\x61\x02\x81" + x), ("crit-after-private-alg", "Header", lambda x: b"\xa2\x01\x3a\x00\x01\x00\x00\x02\x81" + x),
+                 ("crit2-after-alg-kid", "Header", lambda x: b"\xa3\x01\x26\x04\x41\x6b\x02\x82\x04" + x), ("alg-after-crit", "Header", lambda x: b"\xa2\x02\x81\x04\x01" + x),
+                 ("ct-after-alg", "Header", lambda x: b"\xa2\x01\x26\x03" + x), ("alg-after-ct", "Header", lambda x: b"\xa2\x03\x00\x01" + x),
+                 ("protected-crit-after-alg", "CoseSign1", lambda x: b"\x84" + enc(B(b"\xa2\x01\x26\x02\x81" + x)) + b"\xa0\xf6\x40"),
+                 ("recipient-crit-after-alg", "CoseEncrypt", lambda x: b"\x84\x40\xa0\xf6\x81\x83\x40\xa2\x01\x26\x02\x81" + x + b"\xf6"),
+                 ("key-op-after-alg", "CoseKey", lambda x: b"\xa3\x01\x01\x03\x26\x04\x81" + x), ("key-alg-after-ops", "CoseKey", lambda x: b"\xa3\x01\x01\x04\x81\x01\x03" + x),
+                 ("kty-after-alg", "CoseKey", lambda x: b"\xa2\x03\x26\x01" + x), ("kty-after-params", "CoseKey", lambda x: b"\xa3\x20\x01\x21\x40\x01" + x),
+                 ("key-alg-by-kty-okp", "CoseKey", lambda x: b"\xa3\x01\x01\x20\x06\x03" + x), ("key-alg-by-kty-ec2", "CoseKey", lambda x: b"\xa3\x01\x02\x20\x01\x03" + x),
+                 ("claim-name-after-iss", "ClaimsSet", lambda x: b"\xa2\x01\x61\x69" + x + b"\x00"), ("claim-name-before-iss", "ClaimsSet", lambda x: b"\xa2" + x + b"\x00\x01\x61\x69"),
+                 ("claim-name-after-private", "ClaimsSet", lambda x: b"\xa2\x3a\x00\x01\x00\x00\x00" + x + b"\x00"))
     pwin = list(range(-300, 300)) + [-65535, -65536, -65537, 10000, 11060, 11542, 11543, 65535]
     if tier != "quick": pwin = sorted(set(pwin) | set(range(-1000, 12000)))
     for name, ty, wrap in positions:
@@ -375,7 +401,7 @@ def cases_C17(rng, tier):
         for reg in _tbl.REG.values():
             names += list(reg.values())[:4]
         for t in sorted(set(names + [x.lower() for x in names] + [x.upper() for x in names])):
-            if name in ("content-format", "protected-ct", "countersig-ct"):
+            if name in ("content-format", "protected-ct", "countersig-ct", "ct-after-alg"):
                 out.append(case("dec", ty, wrap(enc(T(t))), fam="position-text:" + name))     # content types have their own text rules
             elif ty == "CoseKdfContext":
                 out.append(case("dec", ty, wrap(enc(T(t))), fam="position-text:" + name, expect_re=r"ok enc=[0-9a-f]*" + enc(T(t)).hex() + r"[0-9a-f]*"))
@@ -977,6 +1003,7 @@ def cases_C03(rng, tier):
         ws = pyspec.sig_structure("CoseSignature", small[1], small[1], b"aad", b"p" * L)
         out.append(case("helperdesc", "sign.tbs_data", enc(A(small[0], D_EMPTY_HEADER, B(b"p" * L), sigs)), b"aad", b"\x00", fam="length-boundaries:sign.tbs_data", expect="ok " + ws.hex()))
     out += field_population_cases(("sign",))
+    out += edited_twins(out)
     return out
 
 def post_injective(cases, impl):
@@ -1067,6 +1094,7 @@ def cases_C04(rng, tier):
         for L, d, wire in boundary_prots():
             out.append(case("macdata", ctx, enc(d), b"a", b"p", fam="length-boundaries:protected", expect="ok " + pyspec.mac_structure(ctx, wire, b"a", b"p").hex()))
     out += field_population_cases(("mac",))
+    out += edited_twins(out)
     return out
 
 def cases_C05(rng, tier):
@@ -1174,6 +1202,7 @@ def cases_C05(rng, tier):
         for L, d, wire in boundary_prots():
             out.append(case("encdata", ctx, enc(d), b"a", fam="length-boundaries:protected", expect="ok " + pyspec.enc_structure(ctx, wire, b"a").hex()))
     out += field_population_cases(("enc",))
+    out += edited_twins(out)
     return out
 
 
@@ -2244,6 +2273,7 @@ def cases_C02(rng, tier):
         m2 = enc(A(B(wire), M(), NULL))
         out.append(case("helperhex", "encrypt0.decrypt", m2 if False else enc(A(B(wire), M(), B(b"ct"))), b"aad", fam="length-boundaries:aad", impl_only=True,
                         expect="ok 6374 " + pyspec.enc_structure("CoseEncrypt0", wire, b"aad").hex()))
+    out += edited_twins(out)
     return out
 
 def post_C02(cases, impl):
